@@ -25,7 +25,7 @@ import numpy as rnp
 
 from . import sym
 from .snp import SNP, SymArray
-from .sym import SBool, SInt, XR
+from .sym import ContractUnbound, SBool, SInt, XR
 
 REPO = os.environ.get("VERIF_REPO", "/repo")
 SRC = os.path.join(REPO, "src")
@@ -131,7 +131,7 @@ def module_path(modname):
     p = os.path.join(SRC, rel, "__init__.py")
     if os.path.exists(p):
         return p
-    raise FileNotFoundError(modname)
+    raise ContractUnbound("module %s is no longer present under %s" % (modname, SRC))
 
 
 class FunctionInfo:
@@ -210,6 +210,8 @@ class Shadow:
         for key, obj in (stubs or {}).items():
             if isinstance(key, tuple):
                 mod, name = key
+                if name not in self.ns[mod]:
+                    raise ContractUnbound("the callee %s.%s replaced by an assumed contract is no longer referenced there" % (mod, name))
                 self.ns[mod][name] = obj
             else:
                 hit = False
@@ -218,28 +220,34 @@ class Shadow:
                         ns[key] = obj
                         hit = True
                 if not hit:
-                    raise KeyError("stub target %s not found in any shadowed module" % key)
+                    raise ContractUnbound("the callee %s replaced by an assumed contract is no longer referenced by any shadowed module" % key)
 
     def get(self, modname, qualname):
         obj = self.ns[modname]
         first = True
-        for part in qualname.split("."):
-            obj = obj[part] if first else getattr(obj, part)
-            first = False
+        try:
+            for part in qualname.split("."):
+                obj = obj[part] if first else getattr(obj, part)
+                first = False
+        except (KeyError, AttributeError):
+            raise ContractUnbound("%s:%s is no longer defined" % (modname, qualname)) from None
         return obj
 
     def info(self, modname, qualname):
         path, text = self.src[modname]
         node = _find_def(self.trees[modname], qualname)
         if node is None:
-            raise KeyError("%s:%s not found in %s" % (modname, qualname, path))
+            raise ContractUnbound("%s:%s is no longer defined in %s" % (modname, qualname, path))
         seg = ast.get_source_segment(text, node) or ""
         return FunctionInfo(modname, qualname, path, node.lineno, node.end_lineno, hashlib.sha256(seg.encode()).hexdigest())
 
 
 def real_get(modname, qualname):
     ensure_repo_on_path()
-    obj = importlib.import_module(modname)
-    for part in qualname.split("."):
-        obj = getattr(obj, part)
+    try:
+        obj = importlib.import_module(modname)
+        for part in qualname.split("."):
+            obj = getattr(obj, part)
+    except (ImportError, AttributeError) as exc:
+        raise ContractUnbound("%s:%s is no longer defined (%s)" % (modname, qualname, exc)) from None
     return obj
